@@ -16,6 +16,8 @@ inductive OVal
   | none
   | int (n : Int)
   | cell (c : CellId) (l : List Int)
+  /-- a tuple of lists: (container id, contents) per item -/
+  | tup (items : List (CellId × List Int))
   deriving DecidableEq, Repr
 
 /-- an observed Parameter object -/
@@ -53,6 +55,7 @@ def obsVal (cells : List (List Int)) : Val → OVal
   | .none => .none
   | .int n => .int n
   | .ref c => .cell c (deref cells c)
+  | .tup cs => .tup (cs.map fun c => (c, deref cells c))
 
 def slotRank : Slot → Nat
   | .bounds => 0 | .names => 1 | .objects => 2 | .tags => 3
@@ -110,6 +113,7 @@ def OVal.occ (h : Holder) (s : Site) (x : Name) : OVal → List Occ
   | .none => []
   | .int _ => []
   | .cell c l => [⟨h, s, x, c, l⟩]
+  | .tup items => items.map fun (c, l) => ⟨h, s, x, c, l⟩
 
 def OPObj.occ (h : Holder) (x : Name) (p : OPObj) : List Occ :=
   p.default.occ h .pdefault x ++ p.mslots.map fun (_, c, l) => ⟨h, .slot, x, c, l⟩
@@ -131,6 +135,7 @@ def OVal.shape : OVal → OVal
   | .none => .none
   | .int n => .int n
   | .cell c _ => .cell c []
+  | .tup items => .tup (items.map fun (c, _) => (c, []))
 def OPObj.shape (p : OPObj) : OPObj :=
   { p with default := p.default.shape, mslots := p.mslots.map fun (s, c, _) => (s, c, []) }
 def OInst.shape (I : OInst) : OInst :=
@@ -217,6 +222,7 @@ def litMatches (prev : Snap) (lit : Lit) (v : OVal) : Bool :=
   | .none, .none => true
   | .int n, .int m => n = m
   | .list l, .cell c l' => l = l' && !(prev.cellIds.contains c)
+  | .tup ls, .tup items => items.map (·.2) = ls && items.all (fun it => !(prev.cellIds.contains it.1))
   | _, _ => false
 
 /-- the rules for `K(**kwargs)` creating instance `j` -/
@@ -244,6 +250,12 @@ def creationOK (prev cur : Snap) (k : ClsId) (kwargs0 : List (Name × Lit)) : Op
               if l != l' then some s!"p{x}: copied default differs"
               else if c' = c || prev.cellIds.contains c' then
                 some s!"p{x}: instantiate=True default was not copied for the new instance"
+              else none
+            | .tup its, some (.tup its') =>
+              -- `copy.deepcopy` rebuilds a tuple whose items are mutable: every item is a new object
+              if its.map (·.2) != its'.map (·.2) then some s!"p{x}: copied default differs"
+              else if its'.any (fun it => prev.cellIds.contains it.1) then
+                some s!"p{x}: an item of the instantiate=True tuple default was not copied for the new instance"
               else none
             | _, _ => some s!"p{x}: instantiate=True default missing on the new instance"
           else if P.constant then
@@ -327,6 +339,19 @@ def stepOK (prev cur : Snap) (op : Op) : Option String :=
            some "append did not append"
          else none)
     | _ => if cur.classes != prev.classes || cur.insts != prev.insts then some "failed mutation had an effect" else none
+  | .mutItem t x i n =>
+    let g := match t with
+      | .inst j => (prev.insts[j]?).bind (fun I => lookupN I.get x)
+      | .cls k => ((prev.classes[k]?).bind (fun ps => lookupN ps x)).map (fun (P : OPObj) => P.default)
+    match g.bind (fun v => match v with | .tup items => items[i]? | _ => Option.none) with
+    | some (c, l) =>
+      (match sameExceptCell prev cur c with
+       | some w => some w
+       | none =>
+         if cur.err.isNone && !(cur.occs.all fun o => o.cell != c || o.contents = l ++ [n]) then
+           some "append to a tuple item did not append"
+         else none)
+    | Option.none => if cur.classes != prev.classes || cur.insts != prev.insts then some "failed mutation had an effect" else none
   | .mkClass _ _ =>
     if cur.insts != prev.insts then some "declaring a class changed an instance" else none
   | .sharedFail =>
